@@ -48,7 +48,9 @@ def oracle(ctx, seeds=None):
             s = mk()
             a = s.solve(f0, cfl, stop={'maxit': N + M})[-1]
             out['single'] = a; out['single_tot'] = s.totnit()
-            if a.isnan() or not np.isfinite(a.time):
+            if a.isnan() or not np.isfinite(a.time) or not a.time > f0.time:
+                # NaN, or a time that did not advance (a negative/NaN time step of a state that left the admissible set)
+                out['left_admissible_set'] = True
                 return out
             # other initial field first on the same object, then repeat: hidden state must not leak
             other = f0.copy(); other.data = [d * 1.1 + 0.01 for d in other.data]
@@ -98,7 +100,7 @@ def oracle(ctx, seeds=None):
         if not ok:
             res.fail('%s:raised' % name, out, rp); continue
         a = out['single']
-        if a.isnan():
+        if a.isnan() or out.get('left_admissible_set'):
             res.count('skipped-nan'); continue
         tolerant = name in ('implicit', 'cranknicolson', 'gear')   # not relevant for bitwise clauses
         if not eq(a, out['other_cfl_first']):
